@@ -32,8 +32,8 @@ func (v *ErrorScopeVariables) Get(s context.Scope, name string) (value.Value, er
 		if v := lookupOverride(v.ctx, name); v != nil {
 			return v, nil
 		}
-		// Sometimes change this value but we don't know how change it without set statement
-		return &value.Integer{Value: 60}, nil
+		// 60 until the VCL assigns it (set client.socket.cwnd = n; must read back n)
+		return v.ctx.ClientSocketCwnd, nil
 	case CLIENT_SOCKET_NEXTHOP:
 		if v := lookupOverride(v.ctx, name); v != nil {
 			return v, nil
@@ -43,7 +43,7 @@ func (v *ErrorScopeVariables) Get(s context.Scope, name string) (value.Value, er
 		if v := lookupOverride(v.ctx, name); v != nil {
 			return v, nil
 		}
-		return &value.Integer{Value: 0}, nil
+		return v.ctx.ClientSocketPace, nil
 	case CLIENT_SOCKET_PLOSS:
 		if v := lookupOverride(v.ctx, name); v != nil {
 			return v, nil
